@@ -160,5 +160,21 @@ proof fn lemma_inserted(rs: Seq<Range<usize>>, p: int, new: Range<usize>)
     }
 //@end
 
+//@unit id=Dd file=src/diff_parser.rs fn=line_diff ret=r
+//@contract
+    ensures
+        ranges_wf(r@), // [Dd.post.ranges_wf]
+//@edit rule=E3 find=<<new.char_indices().map(|(offset, _)| offset).collect()>>
+similar::verif_char_byte_offsets(new)
+//@closure rule=E12 find=<<|char_index: usize|>> params=<<|char_index: usize|>> ret=<<b: usize>>
+        ensures
+            b == (if char_index < byte_offsets@.len() { byte_offsets@[char_index as int] } else { new.len() }), // [Dd.closure.byte_at]
+//@edit rule=E15 find=<<for op in diff.ops()>>
+for op in it: diff.ops()
+        invariant
+            ranges_wf(result@), // [Dd.inv.ranges_wf]
+            byte_offsets@.len() >= 1,
+//@end
+
 } // verus!
 fn main() {}
